@@ -451,6 +451,90 @@ def r15e(ctx, rep, cr):
     rep.floor('R15e', 'prefix-operator arms', n, 4)
 
 
+def _sticky_flags(f):
+    """bool locals that are set to true inside a loop and can reach, un-reassigned and across a back edge of that loop, a call that
+    takes them as an argument: [(local, line of the assignment, Call)]"""
+    out = []
+    dom = A.dominators(f)
+    back = {(u, h) for u in range(len(f.bbs)) if not f.bbs[u]['cleanup'] for h in A.succs(f, u) if h in dom[u]}
+    if not back:
+        return out
+    assigns = {}
+    for i, b in enumerate(f.bbs):
+        if b['cleanup']:
+            continue
+        for st in b['s']:
+            if not st[0][1] and f.locals[st[0][0]] == 'bool':
+                assigns.setdefault(st[0][0], []).append((i, st))
+        t = b['t']
+        if t[0] == 'call' and not t[4][1] and f.locals[t[4][0]] == 'bool':
+            assigns.setdefault(t[4][0], []).append((i, None))
+    # copies: `_9 = copy _5` just before the call
+    for l, defs_ in assigns.items():
+        trues = [(i, st) for (i, st) in defs_ if st is not None and st[1][0] == 'use' and st[1][1][0] == 'k' and A._const_val(st[1][1][1]) == 1]
+        if not trues:
+            continue
+        ablocks = {i for (i, _) in defs_}
+        users = []
+        for c in A.calls(f):
+            for a in c.args[1:] if c.args else []:
+                if a[0] in ('c', 'm') and not a[1][1]:
+                    src = a[1][0]
+                    if src == l:
+                        users.append(c)
+                    else:
+                        for b_ in f.bbs:
+                            for st in b_['s']:
+                                if st[0] == [src, []] and st[1][0] == 'use' and st[1][1][0] in ('c', 'm') and st[1][1][1] == [l, []]:
+                                    users.append(c)
+        if not users:
+            continue
+        for (bt, st) in trues:
+            # BFS over (block, crossed a back edge) without passing another assignment of l
+            seen, work = set(), [(x, (bt, x) in back) for x in A.succs(f, bt)]
+            hit = None
+            while work and hit is None:
+                b_, crossed = work.pop()
+                if (b_, crossed) in seen or f.bbs[b_]['cleanup']:
+                    continue
+                seen.add((b_, crossed))
+                if crossed:
+                    for c in users:
+                        if c.bb == b_:
+                            hit = c
+                if b_ in ablocks:
+                    continue   # reassigned here (conservatively: anywhere in the block)
+                for x in A.succs(f, b_):
+                    work.append((x, crossed or (b_, x) in back))
+            if hit is not None:
+                out.append((l, st[2], hit))
+    return out
+
+
+def r15f(ctx, rep, cr):
+    rep.rule('R15f', 'one operator, one flag: in the parsers (neumann_parser::parser, ::expr) a bool that a loop sets to true and hands to a '
+                     'parse_* call — `negated` for NOT IN / NOT BETWEEN / NOT LIKE — cannot reach such a call in a LATER iteration of the '
+                     'loop without being assigned again. A flag that is declared outside the postfix loop and never reset makes '
+                     '`a NOT IN (..) IN (..)` parse as two negated operators, while `(a NOT IN (..)) IN (..)` negates one: parenthesising '
+                     'by the precedence rules changes the tree')
+    n = 0
+    for name, f in sorted(cr.fns.items()):
+        if not (name.startswith('neumann_parser::parser::') or name.startswith('neumann_parser::expr::')) or '{closure' in name:
+            continue
+        if not any(re.search(r'::parse_\w+$', c.resolved) for c in A.calls(f)):
+            continue
+        n += 1
+        for (l, line, c) in _sticky_flags(f):
+            if not re.search(r'::parse_\w+$', c.resolved):
+                continue
+            rep.analysed(f)
+            rep.violation('R15f', f, 'sticky-flag-into-%s' % c.resolved.split('::')[-1], f.loc(line),
+                          'a flag set to true in one iteration of the loop is still true when %s is called in a later iteration: the '
+                          'second operator of a chain inherits the first one\'s NOT' % lib.short(c.resolved))
+    rep.holds('R15f', 'neumann_parser', 'loop flags', '%d parser functions with parse_* calls checked' % n)
+    rep.floor('R15f', 'parser functions checked', n, 5)
+
+
 def run(ctx, rep):
     cr = ctx.crate('neumann_parser')
     r15a(ctx, rep, cr)
@@ -458,3 +542,4 @@ def run(ctx, rep):
     r15c(ctx, rep)
     r15d(ctx, rep, cr)
     r15e(ctx, rep, cr)
+    r15f(ctx, rep, cr)
